@@ -24,10 +24,22 @@ import (
 )
 
 const (
-	repoDir  = "/repo"
-	verifDir = "/verif"
-	scratch  = "/tmp/gldap-verif"
+	repoDir = "/repo"
+	scratch = "/tmp/gldap-verif"
 )
+
+// verifDir is the directory the orchestrator lives in (bin/verif's parent's
+// parent), so that a snapshot of /verif is self-contained.
+var verifDir = func() string {
+	if exe, err := os.Executable(); err == nil {
+		if d := filepath.Dir(filepath.Dir(exe)); d != "" {
+			if _, err := os.Stat(filepath.Join(d, "sim")); err == nil {
+				return d
+			}
+		}
+	}
+	return "/verif"
+}()
 
 type Violation struct {
 	Property string `json:"property"`
@@ -165,6 +177,10 @@ func run(dir string, name string, args ...string) ([]byte, error) {
 
 // prepare builds the worker for the current working tree of /repo.
 func prepare(tag string, race bool) (dir string, worker string) {
+	if verifDir != "/verif" {
+		h := sha256.Sum256([]byte(verifDir))
+		tag += fmt.Sprintf("-%x", h[:3])
+	}
 	dir = filepath.Join(scratch, tag)
 	os.RemoveAll(filepath.Join(dir, "repo"))
 	os.RemoveAll(filepath.Join(dir, "h"))
@@ -956,7 +972,11 @@ func reportViolation(b *batch, v Violation, r *RunResult, c *crash, doMin bool) 
 		if _, ok := ids[v.ID()]; !ok {
 			fmt.Fprintf(os.Stderr, "verif: WARNING: the recorded trace of run %d did not reproduce %s in a fresh process (determinism defect in the harness)\n", r.I, v.ID())
 		} else if doMin {
-			trace = minimise(b.worker, b.dir, b.prop, b.tier, b.info.lean, trace, v.ID(), 60*time.Second)
+			budget := 60.0
+			if x := os.Getenv("VERIF_MIN_S"); x != "" {
+				budget, _ = strconv.ParseFloat(x, 64)
+			}
+			trace = minimise(b.worker, b.dir, b.prop, b.tier, b.info.lean, trace, v.ID(), time.Duration(budget*float64(time.Second)))
 		}
 		ids, res, _ := replayOnce(b.worker, b.dir, b.prop, b.tier, b.info.lean, trace, "v1", true)
 		if vv, ok := ids[v.ID()]; ok {
